@@ -129,6 +129,7 @@ impl Prop for C01 {
                 let server = (case.target.server)();
                 let policy = Hostile {
                     family: case.target.family,
+                    wide: false,
                     first: case.first,
                     after: case.after,
                     tail_len: case.tail_len,
